@@ -18,7 +18,8 @@ META = {
     "tag kind; in 2-tag skeletons raw pairs vary only the modifiers facing their neighbours and the outer chunks of "
     "the quick tier come from a 5-string sub-alphabet (the middle chunk from the full one). Four reference rules "
     "are calibrated on the pinned tree where the docs are silent (see assumptions). newline_sequence and "
-    "keep_trailing_newline are at their defaults here (C11 varies them).",
+    "keep_trailing_newline is at its default here (C11 varies it); newline_sequence \\r\\n / \\r and selecting the "
+    "setting through overlay() after the parent loaded the template are covered on reduced products.",
     "design_ref": "DESIGN.md §4 C12, §3 R-ws",
 }
 
@@ -32,6 +33,13 @@ def phases(quick):
     ws = [
         ("1tag/unicode-ws", 1, [g.CHUNKS_WS, g.CHUNKS_WS], g.tags("full", g.CHUNKS_WS)),
         ("2tags/unicode-ws", 2, [("", "\xa0"), g.CHUNKS_WS, ("", "\n\x0b")], g.tags("none") + raw2),
+    ]
+    ws += [
+        # every line break is emitted as newline_sequence, and whitespace control is unaffected by it
+        ("1tag/newline-seq", 1, [g.CHUNKS_MID, g.CHUNKS_MID], g.tags("outer", (RAW_BODY_A,)), "nlseq"),
+        ("2tags/newline-seq", 2, [("",), g.CHUNKS_SMALL, ("", "\n  ")], g.tags("none") + raw2, "nlseq2"),
+        # the trim/lstrip setting selected by overlay() after the parent has loaded the template by name
+        ("1tag/overlay-after-load", 1, [g.CHUNKS_MID, g.CHUNKS_MID], g.tags("outer", (RAW_BODY_A,)), "overlay"),
     ]
     if quick:
         full = g.CHUNKS
@@ -49,10 +57,24 @@ def phases(quick):
     ]
 
 
-def render(src, trim, lstrip):
-    from jinja2 import Environment
+def render(src, trim, lstrip, ns="\n", via="from_string"):
+    import jinja2
 
-    return Environment(trim_blocks=trim, lstrip_blocks=lstrip).from_string(src).render()
+    if via == "from_string":
+        return jinja2.Environment(trim_blocks=trim, lstrip_blocks=lstrip, newline_sequence=ns).from_string(src).render()
+    # the setting is selected with overlay() after the linked environment has loaded the same template by name
+    base = jinja2.Environment(loader=jinja2.DictLoader({"t": src}), newline_sequence=ns)
+    base.get_template("t").render()
+    return base.overlay(trim_blocks=trim, lstrip_blocks=lstrip).get_template("t").render()
+
+
+# (newline_sequence, line-break form of the source, how the setting is selected) per phase mode
+MODES = {
+    "plain": [("\n", "\n", "from_string")],
+    "nlseq": [("\r\n", "\n", "from_string"), ("\r", "\n", "from_string"), ("\r\n", "\r\n", "from_string")],
+    "nlseq2": [("\r\n", "\n", "from_string"), ("\r", "\n", "from_string")],
+    "overlay": [("\n", "\n", "overlay-after-load"), ("\r\n", "\n", "overlay-after-load")],
+}
 
 
 def tag_label(t):
@@ -63,35 +85,43 @@ def tag_label(t):
 
 def shard(arg) -> core.Part:
     quick, phase_idx, k, n = arg
-    name, ntags, slots, tagset = phases(quick)[phase_idx]
+    name, ntags, slots, tagset, *rest = phases(quick)[phase_idx]
+    variants = MODES[rest[0] if rest else "plain"]
     p = core.Part()
+    nsk = 0
     for sk in g.skeletons(ntags, tagset=tagset, shard=k, nshards=n, chunk_slots=slots):
-        src = g.to_source(sk)
+        nsk += 1
+        src_n = g.to_source(sk)
         labels = "+".join(tag_label(t) for t in sk[1::2])
         for trim, lstrip in g.SETTINGS:
-            p.evals += 1
             frags = g.layout(sk, trim, lstrip)
-            exp = "".join(f[2] for f in frags)
+            exp_n = "".join(f[2] for f in frags)
             roles = tuple(f[1] for f in frags if f[1] in ("lcut", "rcut", "eof"))
-            try:
-                got = render(src, trim, lstrip)
-            except Exception as e:  # noqa: BLE001
-                got = ("exc", type(e).__name__, str(e))
-            if roles:
-                p.sig((labels, trim, lstrip, roles))
-            if got != exp:
-                p.violation(f"C12/trim={int(trim)},lstrip={int(lstrip)}/{labels}", {
-                    "msg": f"source {src!r} trim_blocks={trim} lstrip_blocks={lstrip}: rendered {got!r}, "
-                           f"documented rules give {exp!r}",
-                    "skeleton": g.jsonable(sk), "source": src, "got": repr(got), "expected": exp, "size": len(src),
-                    "script": "import jinja2\n"
-                              f"src = {src!r}\n"
-                              f"print(repr(jinja2.Environment(trim_blocks={trim}, lstrip_blocks={lstrip})"
-                              ".from_string(src).render()))\n"
-                              f"print('documented rules give', {exp!r})\n",
-                })
-        p.sample({"skeleton": g.jsonable(sk), "source": src}, cap=1)
-    p.count("skeletons/" + name, p.evals // 4)
+            for ns, form, via in variants:
+                p.evals += 1
+                src = src_n if form == "\n" else src_n.replace("\n", form)
+                exp = exp_n if ns == "\n" else exp_n.replace("\n", ns)  # every line break comes out as newline_sequence
+                try:
+                    got = render(src, trim, lstrip, ns, via)
+                except Exception as e:  # noqa: BLE001
+                    got = ("exc", type(e).__name__, str(e))
+                if roles:
+                    p.sig((labels, trim, lstrip, roles, ns, via))
+                if got != exp:
+                    extra = "" if (ns, form, via) == ("\n", "\n", "from_string") else f"/nl={ns!r},{via}"
+                    p.violation(f"C12/trim={int(trim)},lstrip={int(lstrip)}{extra}/{labels}", {
+                        "msg": f"source {src!r} trim_blocks={trim} lstrip_blocks={lstrip} newline_sequence={ns!r} "
+                               f"({via}): rendered {got!r}, documented rules give {exp!r}",
+                        "skeleton": g.jsonable(sk), "source": src, "got": repr(got), "expected": exp, "size": len(src),
+                        "script": "from checks import c12\n"
+                                  f"print(repr(c12.render({src!r}, {trim}, {lstrip}, {ns!r}, {via!r})))\n"
+                                  f"print('documented rules give', {exp!r})\n"
+                                  "# c12.render: Environment(trim_blocks, lstrip_blocks, newline_sequence).from_string(src).render(),\n"
+                                  "# or (overlay-after-load) base env with DictLoader loads 't', then base.overlay(trim_blocks=, "
+                                  "lstrip_blocks=).get_template('t').render()\n",
+                    })
+        p.sample({"skeleton": g.jsonable(sk), "source": src_n, "phase": name}, cap=1)
+    p.count("skeletons/" + name, nsk)
     return p
 
 
@@ -110,14 +140,16 @@ def run(ctx: core.Ctx):
     ph = phases(ctx.quick)
     shards = []
     bounds = {}
-    for i, (name, ntags, slots, tagset) in enumerate(ph):
+    for i, (name, ntags, slots, tagset, *rest) in enumerate(ph):
         total = len(tagset) ** ntags
         for s in slots:
             total *= len(s)
         n = max(1, min(192, len(tagset) ** ntags))
         shards += [(ctx.quick, i, k, n) for k in range(n)]
         bounds[name] = {"tags": ntags, "chunk_alphabet_sizes": [len(s) for s in slots], "tag_variants": len(tagset),
-                        "skeletons": total, "renders": total * 4}
+                        "skeletons": total, "renders": total * 4 * len(MODES[rest[0] if rest else "plain"]),
+                        "variants(newline_sequence, source line-break form, how the setting is selected)":
+                            [list(v) for v in MODES[rest[0] if rest else "plain"]]}
     ctx.cov["bounds"] = bounds
     ctx.pmap(shard, shards)
     ctx.viol.sort(key=lambda v: (v[0], v[1].get("size", 0), v[1].get("msg", "")))  # smallest input first per signature
